@@ -239,7 +239,42 @@ func cmdCheck(argv []string) int {
 	sort.Strings(knownList)
 	symConfirmed := map[int]bool{}
 	symCache := map[string]bool{} // (harness, label, inputs) -> confirmed: equal witnesses are re-executed once
+	// At most replayPerLabel candidates of one (harness, assertion) are replayed natively, evenly
+	// spread over the list: a broken tree can produce hundreds of candidates of the same clause and
+	// each one that needs many repetitions costs minutes. The others are listed as candidates only;
+	// a VIOLATION line still needs a native reproduction. (No candidates on a tree that holds.)
+	const replayPerLabel = 6
+	notReplayed := map[int]bool{}
+	{
+		groups := map[string][]int{}
+		for i, v := range viol {
+			if !strings.HasPrefix(v.Label, "sym:") {
+				k := v.Harness + "|" + v.Label
+				groups[k] = append(groups[k], i)
+			}
+		}
+		for _, g := range groups {
+			if len(g) <= replayPerLabel {
+				continue
+			}
+			keep := map[int]bool{}
+			for k := 0; k < replayPerLabel; k++ {
+				keep[g[k*(len(g)-1)/(replayPerLabel-1)]] = true
+			}
+			for _, i := range g {
+				if !keep[i] {
+					notReplayed[i] = true
+				}
+			}
+		}
+		if len(notReplayed) > 0 {
+			fmt.Printf("(%d further candidates of already sampled assertions are not replayed natively)\n", len(notReplayed))
+		}
+	}
 	for i, v := range viol {
+		if notReplayed[i] {
+			continue
+		}
 		if strings.HasPrefix(v.Label, "sym:") {
 			ckey := v.Harness + "|" + v.Label + "|" + fmt.Sprint(v.Inputs)
 			if c, done := symCache[ckey]; done {
@@ -353,6 +388,9 @@ func cmdCheck(argv []string) int {
 			}
 			for i, v := range viol {
 				if strings.HasPrefix(v.Label, "sym:") {
+					continue
+				}
+				if notReplayed[i] {
 					continue
 				}
 				r := byID[fmt.Sprintf("viol-%03d", i)]
